@@ -191,7 +191,8 @@ def expected_meas(probe, outputs, ob, fi):
                     exp.append([str(s[2]), '1', '0.000000', '', 'total'] + run['cols'])
                 else:
                     exp.append([str(s[2]), str(j + 1), fmt6_independent(v), unit, crit] + run['cols'])
-    return exp
+    # in the shape a reader sees: split at tabs (a configured text may itself contain one)
+    return ['\t'.join(e).split('\t') for e in exp]
 
 
 def flush_oracle(ck, inp, probe, outputs, ob, profile_files):
@@ -290,9 +291,13 @@ def oracle(ck, inp, probe, outputs, ob, profile_files):
                 runs_seen[int(i)] = json.loads(js)
             elif line and not line.startswith('#') and line != dp.HEADER:
                 cols = line.split('\t')
-                rid = int(cols[11] if fi in profile_files else cols[-1])
-                runcols = cols[2:11] if fi in profile_files else cols[5:14]
-                ks = probe.by_cols.get(tuple(runcols), [])
+                if fi in profile_files:
+                    rid = int(cols[-2])
+                    ks = probe.by_joined.get('\t'.join(cols[2:-2]), [])
+                else:
+                    rid = int(cols[-1])
+                    ks = probe.by_joined.get('\t'.join(cols[5:-1]), [])
+                runcols = probe.runs[ks[0]]['cols'] if len(ks) == 1 else []
                 problem = None
                 if rid not in runs_seen:
                     problem = 'no-run-record-before'
@@ -334,7 +339,7 @@ def dp_rows(text, profile):
             continue
         cols = line.split('\t')
         if profile:
-            rows.append([cols[0], '1', '0.000000' if cols[-1] == dp.PERF_JSON else cols[-1], '', 'total'] + cols[2:12])
+            rows.append([cols[0], '1', '0.000000' if cols[-1] == dp.PERF_JSON else cols[-1], '', 'total'] + cols[2:-1])
         else:
             rows.append(cols)
     return rows
@@ -545,8 +550,8 @@ def parallel_slice(ck, n):
                     if s[0] == 'r' and fi in probe.runs[s[1]]['files']:
                         for j, ms in enumerate(outputs[s[1]][s[2] - 1]):
                             for (crit, unit, v) in ms:
-                                want_rows.append([str(s[2]), str(j + 1), fmt6_independent(v), unit, crit]
-                                                 + probe.runs[s[1]]['cols'])
+                                want_rows.append('\t'.join([str(s[2]), str(j + 1), fmt6_independent(v), unit, crit]
+                                                           + probe.runs[s[1]]['cols']).split('\t'))
                 got_rows = [r[:-1] for r in dp_rows(new, False)]
                 if new and blocks != 1:
                     ck.oracle_fail('session_block_once', sinp, {'file': fname, 'blocks': blocks}, sig)
